@@ -85,6 +85,10 @@ func genBlock(rng *rand.Rand, tag string, base int, maxItems int) [][]TxSpec {
 func recDet(env *core.Env, emit func(map[string]any)) (*core.Summary, error) {
 	n := env.OptInt("n", 4)
 	reps := env.OptInt("reps", 5)
+	mode := "connect"
+	if env.Opt("peer", "1") == "1" {
+		mode = "connectpeer" // connected blocks pass through the parallel signature verification
+	}
 	rng := rand.New(rand.NewSource(env.Seed*7907 + int64(env.OptInt("salt", 0))))
 	sum := &core.Summary{Counters: map[string]int{}}
 	blocks, roots, digs := &interner{m: map[string]int{}}, &interner{m: map[string]int{}}, &interner{m: map[string]int{}}
@@ -103,7 +107,7 @@ func recDet(env *core.Env, emit func(map[string]any)) (*core.Summary, error) {
 		var chain [][][]TxSpec
 		for i := rng.Intn(3); i > 0; i-- {
 			b := genBlock(rng, tag, len(chain)*100, 4)
-			r, err := long.call(&Cmd{Cmd: "block", Items: b, Mode: "connect", Reps: 1}, callTimeout)
+			r, err := long.call(&Cmd{Cmd: "block", Items: b, Mode: mode, Reps: 1}, callTimeout)
 			if err != nil {
 				return fail(err)
 			}
@@ -157,12 +161,12 @@ func recDet(env *core.Env, emit func(map[string]any)) (*core.Summary, error) {
 					return fail(err)
 				}
 				for _, b := range chain {
-					if _, err := c.call(&Cmd{Cmd: "block", Items: b, Mode: "connect", Reps: 1}, callTimeout); err != nil {
+					if _, err := c.call(&Cmd{Cmd: "block", Items: b, Mode: mode, Reps: 1}, callTimeout); err != nil {
 						c.stop()
 						return fail(err)
 					}
 				}
-				r, err := c.call(&Cmd{Cmd: "block", Items: focal, Mode: "connect", Reps: reps}, callTimeout)
+				r, err := c.call(&Cmd{Cmd: "block", Items: focal, Mode: mode, Reps: reps}, callTimeout)
 				c.stop()
 				if err != nil {
 					return fail(err)
@@ -175,7 +179,7 @@ func recDet(env *core.Env, emit func(map[string]any)) (*core.Summary, error) {
 					"dig": digs.id("del|" + last.DLDel)})
 			}
 		}
-		r, err := long.call(&Cmd{Cmd: "block", Items: focal, Mode: "connect", Reps: 1}, callTimeout)
+		r, err := long.call(&Cmd{Cmd: "block", Items: focal, Mode: mode, Reps: 1}, callTimeout)
 		if err != nil {
 			return fail(err)
 		}
